@@ -9,7 +9,8 @@ Inductive query :=
 | QTypes (impl : result (list str))
 | QSeqids (impl : result (list str)).
 
-Inductive case := Case (rows : list orow) (qs : list query).
+(* [del]/[qs2]: ids deleted through FeatureDB.delete on the same object after [qs] were answered, and the answers after that *)
+Inductive case := Case (rows : list orow) (qs : list query) (del : list str) (qs2 : list query).
 
 Definition OR (r : row) (aj ej : str) (rowid : Z) : orow := mkORow r aj ej rowid.
 
@@ -61,8 +62,9 @@ Fixpoint nodup_strs (l : list str) : bool :=
 
 Definition verdict (c : case) : Z :=
   match c with
-  | Case rows qs =>
+  | Case rows qs del qs2 =>
       if negb (nodup_strs (map oid rows)) then V_OUT else
-      let vs := map (verdict_q rows) qs in
+      let rows2 := filter (fun r => negb (mem_str (oid r) del)) rows in
+      let vs := map (verdict_q rows) qs ++ map (verdict_q rows2) qs2 in
       if existsb (Z.eqb V_BAD) vs then V_BAD else if existsb (Z.eqb V_OK) vs then V_OK else V_OUT
   end.
